@@ -364,6 +364,11 @@ def run_check(prop, tier, seed, nshards=None, verbose=True):
             lines_out.append(f'VIOLATION property={prop} replay={path}')
             lines_out.append(f'  signature: {sig}')
             lines_out.append(f'  witness: {json.dumps(w)[:600]}')
+        more = list(merged['violations'])[MAX_VIOLATION_LINES:]
+        if more:
+            lines_out.append(f'  (+{len(more)} further violation signatures not written as replay files)')
+            for sig in more[:40]:
+                lines_out.append(f'    - {sig}')
     inconclusive_reasons = list(problems)
     if code == 0:
         floor = spec.get('floor', {'quick': 1, 'thorough': 1})[tier]
